@@ -285,6 +285,11 @@ def entry(name, idx, cj=False):
 def delta(a, b):
     if a == b:
         return const(1)
+    if isinstance(a, tuple) and isinstance(b, tuple) and a and b and a[0] == "MIX" and b[0] == "MIX" and [k for _, k in a[1]] == [k for _, k in b[1]]:
+        r = const(1)
+        for (x, _), (y, _) in zip(a[1], b[1]):
+            r = r * delta(x, y)
+        return r
     if isinstance(a, int) and isinstance(b, int):
         return const(0)
     a, b = sorted([a, b], key=repr)
@@ -309,6 +314,8 @@ def i_subst(i, sub):
         return ("G", i[1], tuple(i_subst(j, sub) for j in i[2]))
     if isinstance(i, tuple) and i and i[0] in ("O", "DIV", "MOD"):  # offset / div / mod of an index term by a size
         return (i[0], i_subst(i[1], sub), i[2])
+    if isinstance(i, tuple) and i and i[0] == "MIX":  # mixed-radix combination of index terms: ((term, sizekey), ...)
+        return ("MIX", tuple((i_subst(t, sub), k) for t, k in i[1]))
     return i
 
 
@@ -322,6 +329,11 @@ def i_vars(i):
         return s
     if isinstance(i, tuple) and i and i[0] in ("O", "DIV", "MOD"):
         return i_vars(i[1])
+    if isinstance(i, tuple) and i and i[0] == "MIX":
+        s = set()
+        for t, _ in i[1]:
+            s |= i_vars(t)
+        return s
     return set()
 
 
@@ -456,40 +468,71 @@ def _is_sum_of_squares(expr):
 
 
 def _ortho_rewrite(coef, bound, facs):
-    """sum_i U[i,a] conj(U[i,b]) -> delta(a,b) for U registered in ORTHO, when the bound index i occurs nowhere else."""
-    for v in bound:
-        occ = [(a, e) for a, e in facs.items() if v in a_vars(a)]
-        tot = sum(e for _, e in occ)
-        if tot != 2 or any(a[0] != "E" or a[1] not in ORTHO or e.denominator != 1 for a, e in occ):
-            continue
-        name = occ[0][0][1]
-        if any(a[1] != name for a, _ in occ):
-            continue
-        ax = ORTHO[name]
-        ats = []
-        for a, e in occ:
-            ats.extend([a] * int(e))
-        a1, a2 = ats
-        if len(a1[2]) != 2 or a1[2][ax] != v or a2[2][ax] != v or a1[2][1 - ax] == v or a2[2][1 - ax] == v:
-            continue
-        if name not in REAL_INPUTS and a1[3] == a2[3]:
-            continue
-        nf = dict(facs)
-        for a, e in occ:
-            del nf[a]
-        x, y = a1[2][1 - ax], a2[2][1 - ax]
-        if x != y:
-            if isinstance(x, int) and isinstance(y, int):
-                return Term(0, (), ())
-            d = ("D",) + tuple(sorted([x, y], key=repr))
-            nf[d] = nf.get(d, 0) + 1
-        return Term(coef, [b for b in bound if b != v], nf)
+    """sum_{p} U[p.., a] conj(U[p.., b]) -> delta(a,b)   (ORTHO[name] == 0: orthonormal columns; the row index may be a
+    multi-index because of reshapes), resp. sum_{q} V[a, q..] conj(V[b, q..]) -> delta(a,b)  (ORTHO[name] == 1)."""
+    bset = set(bound)
+    cands = [(a, e) for a, e in facs.items() if a[0] == "E" and a[1] in ORTHO and e.denominator == 1 and e >= 1]
+    for i1, (a1, e1) in enumerate(cands):
+        for a2, e2 in cands[i1:]:
+            if a1[1] != a2[1] or len(a1[2]) != len(a2[2]) or len(a1[2]) < 2:
+                continue
+            if a1 is a2 and e1 < 2:
+                continue
+            name = a1[1]
+            axs = (0, 1) if ORTHO[name] == 2 else (ORTHO[name],)
+            hit = None
+            for ax in axs:
+                r = _ortho_try(coef, bound, facs, bset, a1, a2, ax)
+                if r is not None:
+                    hit = r
+                    break
+            if hit is not None:
+                return hit
+    return None
+
+
+def _ortho_try(coef, bound, facs, bset, a1, a2, ax):
+    if True:
+        if True:
+            name = a1[1]
+            keep = len(a1[2]) - 1 if ax == 0 else 0
+            con1 = [x for k, x in enumerate(a1[2]) if k != keep]
+            con2 = [x for k, x in enumerate(a2[2]) if k != keep]
+            if con1 != con2 or not all(isinstance(v, str) and v in bset for v in con1) or len(set(con1)) != len(con1):
+                return None
+            if name not in REAL_INPUTS and a1[3] == a2[3]:
+                return None
+            # the contracted variables must occur nowhere else
+            ok = True
+            for v in con1:
+                tot = sum(e for a, e in facs.items() if v in a_vars(a))
+                if tot != 2 or (a1[2][keep] == v) or (a2[2][keep] == v):
+                    ok = False
+                    break
+            if not ok:
+                return None
+            nf = dict(facs)
+            if a1 == a2:
+                nf[a1] = nf[a1] - 2
+            else:
+                nf[a1] = nf[a1] - 1
+                nf[a2] = nf[a2] - 1
+            nf = {a: e for a, e in nf.items() if e != 0}
+            x, y = a1[2][keep], a2[2][keep]
+            if x != y:
+                if isinstance(x, int) and isinstance(y, int):
+                    return Term(0, (), ())
+                dl = delta(x, y)
+                for a_, e_ in dl.terms[0].facs:
+                    nf[a_] = nf.get(a_, 0) + e_
+            return Term(coef, [b for b in bound if b not in con1], nf)
     return None
 
 
 def _factorisation_rewrite(coef, bound, facs):
-    """sum_k U[i,k] (S[k]) V[k,j] -> M[i,j] for a registered exact factorisation, when k occurs nowhere else."""
-    for chain, (mi, mj, mbody) in FACTORISATIONS:
+    """sum_k U[p.., k] (S[k]) V[k, q..] -> M[p.., q..] for a registered exact factorisation, when k occurs nowhere else.
+    M is stored as (row index variables, column index variables, body)."""
+    for chain, (mrows, mcols, mbody) in FACTORISATIONS:
         for v in bound:
             occ = [(a, e) for a, e in facs.items() if v in a_vars(a)]
             if len(occ) != len(chain) or any(e != 1 or a[0] != "E" or a[3] for a, e in occ):
@@ -498,7 +541,9 @@ def _factorisation_rewrite(coef, bound, facs):
             if set(by) != set(chain) or len(by) != len(chain):
                 continue
             U, V = by[chain[0]], by[chain[-1]]
-            if len(U[2]) != 2 or len(V[2]) != 2 or U[2][1] != v or V[2][0] != v or U[2][0] == v or V[2][1] == v:
+            if len(U[2]) != len(mrows) + 1 or len(V[2]) != len(mcols) + 1 or U[2][-1] != v or V[2][0] != v:
+                continue
+            if v in U[2][:-1] or v in V[2][1:]:
                 continue
             if len(chain) == 3:
                 Sa = by[chain[1]]
@@ -506,7 +551,9 @@ def _factorisation_rewrite(coef, bound, facs):
                     continue
             nf = {a: e for a, e in facs.items() if a not in [o[0] for o in occ]}
             rest = Term(coef, [b for b in bound if b != v], nf)
-            body = rename_apart(mbody).subst({mi: U[2][0], mj: V[2][1]})
+            sub = dict(zip(mrows, U[2][:-1]))
+            sub.update(dict(zip(mcols, V[2][1:])))
+            body = rename_apart(mbody).subst(sub)
             return [t_mul(rest, t) for t in body.terms]
     return None
 
@@ -747,6 +794,8 @@ def _idx_key(i, ren):
         return ("G", i[1], tuple(_idx_key(j, ren) for j in i[2]))
     if isinstance(i, tuple) and i and i[0] in ("O", "DIV", "MOD"):
         return (i[0], _idx_key(i[1], ren), i[2])
+    if isinstance(i, tuple) and i and i[0] == "MIX":
+        return ("MIX", tuple((_idx_key(t, ren), k) for t, k in i[1]))
     return i
 
 
